@@ -581,10 +581,10 @@ def run(ctx):
             for case in CORPUS:
                 check_case(ctx, case, tmp)
                 ctx.count("corpus")
-        n = 560 if ctx.quick() else 12000 // wcount
+        n = 560 if ctx.quick() else 48000 // wcount
         for _ in range(n):
             check_case(ctx, gen_case(ctx.rng, ctx.quick()), tmp)
-        for _ in range(12 if ctx.quick() else 200 // wcount):
+        for _ in range(12 if ctx.quick() else 400 // wcount):
             case = gen_case(ctx.rng, ctx.quick(), empty_axes=False)
             cli_case(ctx, case, tmp)
         if widx == 0:
